@@ -79,13 +79,21 @@ Qed.
 Lemma sorted_set_In x l : In x (sorted_set l) <-> In x l.
 Proof. unfold sorted_set. rewrite sort_strings_In. apply dedup_In. Qed.
 
-Lemma class_bases_In b ms :
-  In b (class_bases ms []) -> b = "BaseModel" \/ exists m, In m ms /\ b = pascal_s m.
+Lemma class_bases_In b ms kept :
+  In b (class_bases ms kept []) -> b = "BaseModel" \/ exists m, In m kept /\ b = pascal_s m.
 Proof.
   unfold class_bases. rewrite app_nil_r. destruct ms as [|m0 ms].
   - intros [H | []]. left. auto.
   - intro H. apply in_map_iff in H. destruct H as [m [E Hm]]. right. exists m.
     split; [apply sorted_set_In, Hm | auto].
+Qed.
+
+(* the listed bases are among the resolved mixins (those not inherited through another one) *)
+Lemma remove_inherited_incl fuel S frs ms kept :
+  remove_inherited fuel S frs ms = Ok kept -> incl kept ms.
+Proof.
+  unfold remove_inherited. intro H. apply bind_ok in H. destruct H as [inh [_ H]]. inversion H; subst.
+  intros x Hx. apply filter_In in Hx. tauto.
 Qed.
 
 Lemma mro_basemodel cs j : j >= 1 -> mro_fields j cs "BaseModel" = Some [].
@@ -279,19 +287,22 @@ Lemma level_invM C S frs fuel pub cn rt r sels at_ tv out pub' g fns ms :
   parse_type_def (Datatypes.S fuel) C S frs pub cn r sels at_ [] tv = Ok (out, pub', false) ->
   flattenM g S frs rt r sels = Some (fns, ms) ->
   (at_ = true -> has_typename sels = true) ->
-  exists f2 pfl extra,
+  exists f2 pfl extra kept,
     fuel = Datatypes.S f2 /\
     fields_run (parse_type_def fuel C S frs) C S frs fuel cn r tv fns (pub ++ [cn]) pfl extra pub' false /\
-    out = {| c_name := cn; c_bases := class_bases ms []; c_fields := pfl |} :: extra.
+    incl kept ms /\
+    out = {| c_name := cn; c_bases := class_bases ms kept []; c_fields := pfl |} :: extra.
 Proof.
   intros H Hfl Hat. simpl in H. apply body_inv in H.
-  destruct H as [[_ [_ [_ H]]] | [M [fields0 [mixins [pfl [extra [Hres [Hrun Hout]]]]]]]]; [discriminate|].
+  destruct H as [[_ [_ [_ H]]] | [M [fields0 [mixins [pfl [extra [Hres [Hrun [kept [Hk Hout]]]]]]]]]];
+    [discriminate|].
   destruct (resolve_ok_fuel _ _ _ _ _ _ Hres) as [f2 Ef]. subst fuel.
   pose proof (flattenM_resolve_det _ _ _ _ _ _ _ _ _ Hfl Hres) as E. inversion E; subst fields0 mixins.
   assert (Hadd : add_typename_field at_ fns = fns).
   { unfold add_typename_field. destruct at_; [| reflexivity].
     rewrite (flattenM_typename _ _ _ _ _ _ _ _ (Hat eq_refl) Hfl). reflexivity. }
-  rewrite Hadd in Hrun. exists f2, pfl, extra. auto.
+  rewrite Hadd in Hrun. exists f2, pfl, extra, kept. split; [reflexivity|]. split; [exact Hrun|].
+  split; [eapply remove_inherited_incl; eauto | exact Hout].
 Qed.
 
 (* ------------------------------------------------------------------------------------------- *)
@@ -338,15 +349,15 @@ Section Mix.
     destruct (sels_okM_inv _ _ _ _ _ _ _ _ _ _ Hok) as [g' [fns [ms [Eg [Hfl [_ [Hfields Hmix]]]]]]].
     inversion Eg; subst g'. clear Eg.
     destruct fuel as [|fuel']; [discriminate Hp|].
-    destruct (level_invM _ _ _ _ _ _ _ _ _ _ _ _ _ _ _ _ Hp Hfl Hat) as [f2 [pfl [extra [Ef [Hrun Hout]]]]].
+    destruct (level_invM _ _ _ _ _ _ _ _ _ _ _ _ _ _ _ _ Hp Hfl Hat) as [f2 [pfl [extra [kept [Ef [Hrun [Hkept Hout]]]]]]].
     destruct Hamb as [HkN [HkvN HspecN]].
     destruct (flattenM_collect_mix _ _ _ _ _ _ _ _ _ _ Hfl Hcol) as [Hown Hmixn].
-    assert (Hc0 : In {| c_name := cn; c_bases := class_bases ms []; c_fields := pfl |} out)
+    assert (Hc0 : In {| c_name := cn; c_bases := class_bases ms kept []; c_fields := pfl |} out)
       by (rewrite Hout; left; reflexivity).
     destruct (Htab _ Hc0) as [Hl Hnb]. simpl in Hl, Hnb.
     (* the base classes *)
-    assert (HB : forall b, In b (class_bases ms []) -> class_good g b kv).
-    { intros b Hb. destruct (class_bases_In _ _ Hb) as [E | [m [Hm E]]]; subst b.
+    assert (HB : forall b, In b (class_bases ms kept []) -> class_good g b kv).
+    { intros b Hb. destruct (class_bases_In _ _ _ Hb) as [E | [m [Hm E]]]; subst b; [| apply Hkept in Hm].
       - exists []. split; [intros j Hj; apply mro_basemodel; lia | intros n' _ pf []].
       - rewrite forallb_forall in Hmix. specialize (Hmix m Hm). unfold mixin_ok in Hmix.
         destruct (lookup_frag frs m) as [fm|] eqn:Elf; [| discriminate Hmix].
